@@ -22,11 +22,21 @@ def run_batch(ctx, op, reqs, extra_env=None, timeout=300, vmem_kb=4 << 20, cpu_s
     if cpu_s:
         lim += "ulimit -t %d; " % cpu_s
     cmd = ["bash", "-c", lim + 'exec "$0" "$1"', os.path.join(ctx.bins, "vworker"), op]
+    import signal
+    p = subprocess.Popen(cmd, stdin=subprocess.PIPE, stdout=subprocess.PIPE, stderr=subprocess.PIPE, env=e, start_new_session=True)
     try:
-        p = subprocess.run(cmd, input=payload, stdout=subprocess.PIPE, stderr=subprocess.PIPE, env=e, timeout=timeout)
-        rc, out, err = p.returncode, p.stdout, p.stderr
-    except subprocess.TimeoutExpired as ex:
-        rc, out, err = -9, ex.stdout or b"", (ex.stderr or b"") + b"\nTIMEOUT"
+        out, err = p.communicate(input=payload, timeout=timeout)
+        rc = p.returncode
+    except subprocess.TimeoutExpired:
+        try:
+            os.killpg(p.pid, signal.SIGKILL)
+        except OSError:
+            pass
+        try:
+            out, err = p.communicate(timeout=10)
+        except Exception:
+            out, err = b"", b""
+        rc, err = -9, (err or b"") + b"\nTIMEOUT"
     replies = []
     for line in out.split(b"\n"):
         if not line.strip():
